@@ -371,6 +371,14 @@ impl MempoolInner {
         let ttx_to_insert = TimemarkedTransaction::new(checked_tx, transaction_costs);
         let tx_id_to_insert = *ttx_to_insert.id();
 
+        // A transaction that is already tracked must not be added a second time: `pending` and
+        // `parked` each only detect duplicates within themselves, so a second insertion racing
+        // with the first (e.g. two concurrent `CheckTx` requests for the same bytes, both of
+        // which saw no status for it) could otherwise leave the transaction in both containers.
+        if self.contained_txs.contains(&tx_id_to_insert) {
+            return Err(InsertionError::AlreadyPresent);
+        }
+
         // try insert into pending
         match self.pending.add(
             ttx_to_insert.clone(),
